@@ -28,6 +28,16 @@ def offsetAt : Tree → List Nat → Option Nat
     | some k => (offsetAt k p).map (· + kidsOffset ks i)
     | none => none
 
+/-- Does a child that starts (padding) at `off` reach the edit window: `off ≤ E` and
+`S ≤ off + total_bytes + lookahead_bytes`?  (`marked_bound` ∧ `marked_upper` for that child.) -/
+def reaches (k : Tree) (off S E : Nat) : Bool :=
+  decide (off ≤ E) && decide (S ≤ off + k.totalBytes + k.data.lookahead)
+
+/-- Number of children (laid out from `off`) that reach the window `[S, E]`. -/
+def countReachKids : List Tree → Nat → Nat → Nat → Nat
+  | [], _, _, _ => 0
+  | k :: rest, off, S, E => (if reaches k off S E then 1 else 0) + countReachKids rest (off + k.totalBytes) S E
+
 mutual
   /-- No node of the tree is column-dependent (`depends_on_column`, set only for tokens of
   external scanners that called `get_column`). -/
